@@ -253,6 +253,7 @@ func (f *Frame) rangeNext(in *ssa.Next) {
 	pos := f.st.Get(rs.visKey, IntS)
 	n := f.strLen(rs.m)
 	ok := Lt(pos, n)
+	f.assume(Ge(pos, IntLit(0)), "string iterator position is non-negative")
 	r := f.fresh(in.Name()+".r", IntS)
 	w := f.fresh(in.Name()+".w", IntS)
 	f.assume(And(Ge(w, IntLit(1)), Le(w, IntLit(4)), Le(Add(pos, w), n)), "rune width")
@@ -631,6 +632,16 @@ func (f *Frame) doCall(instr ssa.Instruction, c *ssa.CallCommon, result *ssa.Cal
 	}
 	callee := c.StaticCallee()
 	if callee == nil {
+		// call through a package-level function variable with its own contract
+		if u, ok := c.Value.(*ssa.UnOp); ok {
+			if g, ok := u.X.(*ssa.Global); ok {
+				key := pkgQualifier(g.Pkg.Pkg) + "." + g.Name()
+				if fc := f.E.P.Cs.Funcs[key]; fc != nil {
+					f.contractCallSig(instr, key, c.Signature(), fc, args, false, setResult)
+					return
+				}
+			}
+		}
 		fv := f.val(c.Value)
 		if fv.K == VFunc && fv.Fn != nil {
 			callee = fv.Fn
